@@ -101,6 +101,7 @@ pub fn c03(data: &[u8]) -> Option<c03::Case> {
         text,
         max_vocab,
         graphemes: mv & 1 == 1,
+        trained: None,
     })
 }
 
